@@ -125,3 +125,19 @@ func errSwallowRule(c *Ctx, r *Report, rule string, floor int, sel func(fn *ssa.
 		r.Undecided(rule, k, "table entry matches no site any more (anchor lost): re-confirm the table")
 	}
 }
+
+// errIsGuard: passed when errors.Is(_, <pkg>.<name>) is true (pkg = full import path).
+func errIsGuard(pkg, name string) Guard {
+	return Guard{Name: "errors.Is(err, " + pkg + "." + name + ")", Truthy: true, Match: func(b ssa.Value) bool {
+		call, ok := isCallTo(b, "errors.Is")
+		if !ok || len(call.Call.Args) != 2 {
+			return false
+		}
+		u, ok := call.Call.Args[1].(*ssa.UnOp)
+		if !ok {
+			return false
+		}
+		g, ok := u.X.(*ssa.Global)
+		return ok && g.Name() == name && g.Pkg != nil && g.Pkg.Pkg.Path() == pkg
+	}}
+}
